@@ -775,7 +775,9 @@ class Interp:
         var = self.storage(node.variable, frame, node)
         if not isinstance(var, Cell):
             raise UB("type", "loop variable")
-        entry = [node, start]
+        self.loop_seq = getattr(self, "loop_seq", 0) + 1
+        # [loop node, current iteration value, execution instance number]
+        entry = [node, start, self.loop_seq]
         self.loop_stack.append(entry)
         try:
             value = start
